@@ -44,6 +44,7 @@ def compare(a_lines, b_lines, views=('obs', 'shape', 'memo', 'ident', 'fresh'), 
     the key 'drift:<view>' once), so the result is the first RELEVANT difference of each view."""
     a, b = by_op(a_lines), by_op(b_lines)
     diffs = {}
+    last_equal = {}
     for n in sorted(set(a) | set(b)):
         ao, bo = a.get(n), b.get(n)
         if ao is not None and bo is not None and ao['R'] == ['R %d fault' % n]:
@@ -61,10 +62,28 @@ def compare(a_lines, b_lines, views=('obs', 'shape', 'memo', 'ident', 'fresh'), 
                 diffs.setdefault('drift:obs', (n,) + x)
             break
         for tag, view in VIEW_OF.items():
-            if view not in views or view in diffs:
+            if view not in views:
                 continue
             al, bl = ao.get(tag, []), bo.get(tag, [])
-            if al == bl:
+            if tag in 'OSMI':
+                # state lines (one per register): a difference counts where it is INTRODUCED, i.e. the same
+                # register's line agreed after the previous operation; afterwards it is inherited, not new
+                da = {l.split(' ', 2)[1]: l for l in al}
+                db = {l.split(' ', 2)[1]: l for l in bl}
+                for reg in sorted(set(da) | set(db)):
+                    x, y = da.get(reg, '<missing>'), db.get(reg, '<missing>')
+                    was_equal = last_equal.get((tag, reg), True)
+                    last_equal[(tag, reg)] = (x == y)
+                    if x == y or not was_equal or view in diffs:
+                        continue
+                    if relevant is None or relevant(view, n, x, y):
+                        diffs[view] = (n, x, y)
+                    else:
+                        diffs.setdefault('drift:' + view, (n, x, y))
+                for reg in [r for (t, r) in list(last_equal) if t == tag and r not in da and r not in db]:
+                    last_equal.pop((tag, reg), None)
+                continue
+            if view in diffs or al == bl:
                 continue
             for k in range(max(len(al), len(bl))):
                 x = al[k] if k < len(al) else '<missing>'
